@@ -454,7 +454,7 @@ pub fn run(cx: &Ctx) {
             S16 { ty: ty.to_string(), xs, ys, via_extend: (n + t) % 2 == 0 }
         })
     };
-    cx.run_pt(&Sentinels, cx.by(5000, 50000), cx.workers, strat, "random C01 values, n in 0..=4 or a constant stream of length 5..3000");
+    cx.run_pt(&Sentinels, cx.by(5000, 1000000), cx.workers, strat, "random C01 values, n in 0..=4 or a constant stream of length 5..3000");
 }
 
 pub fn replay(check: &str, case: &serde_json::Value) -> Option<Result<(), String>> {
